@@ -132,7 +132,7 @@ Definition case_ok (c : case) : bool :=
   let m := mkmodel masset arrs msc in
   let s0 := St m (to_tree tree0) in
   let '(ok, s) := replay s0 evs in
-  Nat.eqb (length arrs) 9 && wf_libs_b m && wf_root_b m (to_tree tree0) && ok &&
+  Nat.eqb (length arrs) 9 && wf_libs_b m && single_asset_b (to_tree tree0) && ok &&
   unm_ok (map ruid (unmanaged_children m (stree s))) ubefore uafter.
 
 Fixpoint mismatches_from (i : nat) (cs : list case) : list nat :=
